@@ -28,7 +28,7 @@ use pre::*;
 
 broadcast use {axiom_path_as_path, axiom_pathbuf_ref_as_path, lemma_fits, axiom_ts_n, axiom_te_n, axiom_pat_str, axiom_pat_char,
     axiom_split_def, lemma_sv_step, axiom_str_path, axiom_refstr_path, axiom_plain_pv, axiom_push_refstr, axiom_os_str, lemma_ci_k,
-    axiom_pat_string_ref, axiom_from_str, axiom_pth_enum, lemma_pairs_step};
+    axiom_pat_string_ref, axiom_from_str, lemma_pairs_step};
 
 //@item src/fixtures/scanner.rs struct Pytest11EntryPoint
 spec fn ep_v(e: Pytest11EntryPoint) -> EpV { EpV { name: e.name@, module: e.module_path@ } }
@@ -186,6 +186,117 @@ impl FixtureDatabase {
     proof { assert(ls.skip(j).drop_first() =~= ls.skip(j + 1)); assert(line@ == ls[j]); j = j + 1; }
     let ghost t = trim_v(ls[j - 1]);
     proof { assert(pth_lines_root(sp, ls, j - 1) == (if !line_skipped(t) && !line_invalid(t) && line_root(sp, t) is Some { line_root(sp, t) } else { pth_lines_root(sp, ls, j) })); }
+@*/
+
+// ---- exec vacuity canaries: the same real bodies with the REAL contracts and injected `assert(false)`; each must FAIL
+/*@ extract src/fixtures/scanner.rs resolve_entry_point_module_to_path
+@tags C14
+@as canary_exec_resolve
+@ret r
+@rename split vp_split_c
+@closure any:1 |p: &&str| -> (b: bool) ensures b == bad_part((**p)@)
+@closure 2 |candidate: &Path| -> (o: Option<PathBuf>) ensures opt_pbv(o) == bounded_v(pv(site_packages), pv(candidate))
+@replace 1 `-> Option<PathBuf>` => ``
+@loopvar 1 itp
+@sig
+    ensures opt_pbv(r) == op_resolve_ep(pv(site_packages), module_path@),
+@start
+    let ghost m0 = module_path@;
+    let ghost base = pv(site_packages);
+    proof { lemma_split_def_first(m0, ':'); }
+@after parts 1
+    proof { assert(sv(parts@) == ep_parts(m0)); lemma_split_def_first(ep_module(m0), '.'); }
+@return 2
+    assert(any_bad_part(sv(parts@))) by {
+        let rem = parts@.as_ref();
+        let j = choose|j: int| 0 <= j < rem.len() && bad_part((**rem[j])@);
+        assert(sv(parts@)[j] == (**rem[j])@);
+    }
+@before to_path_buf 1
+    proof {
+        assert forall|i: int| 0 <= i < parts@.len() implies !bad_part(#[trigger] sv(parts@)[i]) by {
+            let y = parts@.as_ref()[i];
+            assert(sv(parts@)[i] == (**y)@);
+        }
+    }
+@loop 1
+    invariant itp.seq() == parts@.as_ref(), base == pv(site_packages),
+        pbv(&path) == push_all(base, sv(parts@), itp.index@ as int),
+@return 3
+    assert(false);
+@return 4
+    assert(false);
+@return tail
+    assert(false);
+@*/
+
+/*@ extract src/fixtures/scanner.rs find_editable_pth_source_root
+@tags C14
+@as canary_exec_pth_root
+@ret r
+@wrapexpr 1 `format!("__editable__.{}", normalized_name)` => `Self::vp_fmt_editable_norm_c(normalized_name)` with fn vp_fmt_editable_norm_c(normalized_name: &str) -> (r: String) ensures r@ == editable_pfx() + normalized_name@
+@wrapexpr 1 `format!("_{}", normalized_name)` => `Self::vp_fmt_underscore_norm_c(normalized_name)` with fn vp_fmt_underscore_norm_c(normalized_name: &str) -> (r: String) ensures r@ == underscore() + normalized_name@
+@wrapexpr 1 `format!("__editable__.{}", raw_name)` => `Self::vp_fmt_editable_raw_c(raw_name)` with fn vp_fmt_editable_raw_c(raw_name: &str) -> (r: String) ensures r@ == editable_pfx() + raw_name@
+@wrapexpr 1 `format!("_{}", raw_name)` => `Self::vp_fmt_underscore_raw_c(raw_name)` with fn vp_fmt_underscore_raw_c(raw_name: &str) -> (r: String) ensures r@ == underscore() + raw_name@
+@derefcmp stem c
+@closure any:1 |c: &String| -> (b: bool) ensures b == stem_matches(stem@, c@)
+@closure is_some_and:1 |rest: &str| -> (b: bool) ensures b == dash_digit_at(rest@, 0)
+@closurelet is_some_and:1 proof { if rest@.len() > 0 && rest@[0] == '-' { lemma_dash_next(rest@, 0); lemma_boff_ends(rest@); } }
+@wrapexpr_opt 1 `rest[1..].starts_with(|ch: char| ch.is_ascii_digit())` => `Self::vp_rest_digit_c(rest)` with fn vp_rest_digit_c(rest: &str) -> (r: bool) requires 1 <= blen(rest@), is_bnd(rest@, 1) ensures r == (cidx(rest@, 1) < rest@.len() && is_digit(rest@[cidx(rest@, 1)]))
+@wrapexpr 1 `line.bytes().any(|b| b < 0x20 && b != b'\t')` => `Self::vp_has_ctl_c(line)` with fn vp_has_ctl_c(line: &str) -> (r: bool) ensures r == has_ctl_v(line@)
+@sig
+    ensures opt_pbv(r) == op_pth_root(pv(site_packages), pth_index, raw_name@, normalized_name@),
+@before for 1
+    let ghost sp = pv(site_packages);
+    let ghost cands = strs_v(candidates@);
+    let ghost e = pairs_v(hm_enum(pth_index));
+    let ghost mut i: int = 0;
+    proof { assert(cands =~= pth_cands(raw_name@, normalized_name@)); }
+@forloop 1 it
+    proof { assert(i == e.len()); }
+@loop 1
+    invariant 0 <= i <= e.len(), e == pairs_v(hm_enum(pth_index)), pairs_v(it.remaining()) =~= e.skip(i), it.obeys_prophetic_iter_laws(),
+        sp == pv(site_packages), cands == strs_v(candidates@), cands == pth_cands(raw_name@, normalized_name@),
+        pth_first(sp, cands, e, 0) == pth_first(sp, cands, e, i),
+    ensures i == e.len(),
+    decreases e.len() - i
+@loopstart 1
+    proof { assert(e.skip(i).drop_first() =~= e.skip(i + 1)); assert(e[i] == (stem@, pbv(pth_path))); i = i + 1; }
+    proof { assert(pth_first(sp, cands, e, i - 1) == (match pth_file_root(sp, cands, e[i - 1].0, e[i - 1].1) { Some(p) => Some(p), None => pth_first(sp, cands, e, i) })); }
+@after matches 1
+    proof {
+        if matches {
+            let rem = candidates@.as_ref();
+            let q = choose|q: int| 0 <= q < rem.len() && stem_matches(stem@, (*rem[q])@);
+            assert(cands[q] == (*rem[q])@);
+        } else {
+            assert forall|q: int| 0 <= q < cands.len() implies !stem_matches(stem@, #[trigger] cands[q]) by {
+                let y = candidates@.as_ref()[q];
+                assert(cands[q] == (*y)@);
+            }
+        }
+        assert(matches == stem_matches_any(cands, stem@));
+    }
+@before for 2
+    let ghost ls = lines_v(content@);
+    let ghost mut j: int = 0;
+@forloop 2 it2
+    proof { assert(j == ls.len()); }
+@loop 2
+    invariant 0 <= j <= ls.len(), ls == lines_v(content@), sv(it2.remaining()) =~= ls.skip(j), it2.obeys_prophetic_iter_laws(),
+        sp == pv(site_packages), 0 < i <= e.len(), cands == pth_cands(raw_name@, normalized_name@), e == pairs_v(hm_enum(pth_index)),
+        pth_first(sp, cands, e, 0) == (match pth_lines_root(sp, ls, 0) { Some(p) => Some(p), None => pth_first(sp, cands, e, i) }),
+        pth_lines_root(sp, ls, 0) == pth_lines_root(sp, ls, j),
+    ensures j == ls.len(),
+    decreases ls.len() - j
+@loopstart 2
+    proof { assert(ls.skip(j).drop_first() =~= ls.skip(j + 1)); assert(line@ == ls[j]); j = j + 1; }
+    let ghost t = trim_v(ls[j - 1]);
+    proof { assert(pth_lines_root(sp, ls, j - 1) == (if !line_skipped(t) && !line_invalid(t) && line_root(sp, t) is Some { line_root(sp, t) } else { pth_lines_root(sp, ls, j) })); }
+@return 1
+    assert(false);
+@return tail
+    assert(false);
 @*/
 
 }
